@@ -463,7 +463,17 @@ impl<'f, 't, 'w, W: Write> Formatter<'f, 't, 'w, W> {
                  to format Unix timestamp",
             )
         })?;
-        ext.write_int(b' ', None, timestamp.as_second(), self.wtr)
+        // N.B. A Unix timestamp in seconds is the floor of the instant, which
+        // is also what the parser assumes and what `%S` and `%f` describe.
+        // But `as_second` truncates towards zero. They only differ for
+        // instants before the epoch with a fractional second.
+        let mut second = timestamp.as_second();
+        if timestamp.subsec_nanosecond() < 0 {
+            // OK because the minimal second value always has a non-negative
+            // fractional component.
+            second -= 1;
+        }
+        ext.write_int(b' ', None, second, self.wtr)
     }
 
     /// %f
